@@ -120,7 +120,7 @@ def handle (_ : Unit) (j : Json) : R (Unit × Json) := do
     let sb ← listF asBytes j "sysblock"
     let per ← boolF j "perdisk"
     -- the specification speaks about a raw file only when a line has an unknown field count
-    let unknown := (textLines file).any fun l => !Spec.layoutKnown (splitP isWsT l).length
+    let unknown := (textLines diskCfg.univNl file).any fun l => !Spec.layoutKnown (splitP isWsT l).length
     return ((), jObj [("model", jOut (diskIoCounters sb per file)),
                       ("spec", if unknown then jOut (.exc .valueError) else Json.null)])
   else if op == "usage" then
